@@ -11,8 +11,11 @@
    What is true of the faithful model and what is not:
    * [Inv] holds in every reachable state, whatever the operations and their outcomes.
    * The two views are inverse of each other in tame states, for ids that are not ghosts.
-   * The full-strength property is FALSE of the code: three defect classes, each with a
-     witness below ([..._refuted]) that is replayed on the real code by harness/checks/c19.py. *)
+   * The full-strength property is FALSE of the code: two open defect classes (an id of an
+     ancestor; an insertion at the root path), each with a witness below ([..._refuted]) that is
+     replayed on the real code by harness/checks/c19.py.  A third one (case-insensitive rename
+     stored the new name un-normalised) was repaired in the repository (commit 5cc1cf3) and the
+     model follows the repaired code. *)
 From Coq Require Import NArith List Bool.
 From CS Require Import Sx Str CacheModel CacheProofs CacheInv CacheLaws CacheTame CacheDict.
 Import ListNotations.
@@ -33,7 +36,7 @@ Proof. exact step_inv. Qed.
 Print Assumptions C19_inv_step.
 
 Theorem C19_inv_reachable : forall cf ops r m, Inv (exec cf (init r m) ops).
-Proof. intros cf ops r m. apply exec_inv. apply inv_init. Qed.
+Proof. exact inv_reachable. Qed.
 Print Assumptions C19_inv_reachable.
 
 (* the three clauses of Inv, spelled out on lookups *)
@@ -95,11 +98,7 @@ Theorem C19_inverse_views_reachable : forall cf ops r m o p,
   let c := exec cf (init r m) ops in
   (get_path c o = Some p -> get_oid cf c p = Some o) /\
   (aget o (c_ghosts c) = None -> get_oid cf c p = Some o -> get_path c o = Some (map (cf_fold cf) p)).
-Proof.
-  intros cf ops r m o p Hf Hr c. destruct (exec_regular cf ops r m Hf Hr) as [Ht HI]. split.
-  - apply path_oid_inverse; assumption.
-  - apply oid_path_inverse; assumption.
-Qed.
+Proof. exact inverse_views_reachable. Qed.
 Print Assumptions C19_inverse_views_reachable.
 
 (* ------------------------------------------------------------------ deleting forgets the subtree *)
@@ -131,8 +130,9 @@ Print Assumptions C19_replace_forgets_subtree.
 
 (* ------------------------------------------------------------------ rename moves the whole subtree *)
 Theorem C19_rename_moves_subtree : forall cf c p q S,
+  (forall n, cf_fold cf (cf_fold cf n) = cf_fold cf n) ->
   Inv c -> tame cf c = true -> n_id (c_root c) <> None ->
-  map (cf_fold cf) p <> [] -> q <> [] -> cf_fold cf (last q 0%N) = last q 0%N ->
+  map (cf_fold cf) p <> [] -> q <> [] ->
   lookup (map (cf_fold cf) p) (c_root c) = Some S ->
   fst (step cf c (ORename p q)) = ROk ->
   lookup (map (cf_fold cf) q) (c_root (snd (step cf c (ORename p q)))) = Some S /\
@@ -141,8 +141,9 @@ Proof. exact rename_moves_subtree. Qed.
 Print Assumptions C19_rename_moves_subtree.
 
 Corollary C19_rename_moves_lookups : forall cf c p q S rel,
+  (forall n, cf_fold cf (cf_fold cf n) = cf_fold cf n) ->
   Inv c -> tame cf c = true -> n_id (c_root c) <> None ->
-  map (cf_fold cf) p <> [] -> q <> [] -> cf_fold cf (last q 0%N) = last q 0%N ->
+  map (cf_fold cf) p <> [] -> q <> [] ->
   lookup (map (cf_fold cf) p) (c_root c) = Some S ->
   fst (step cf c (ORename p q)) = ROk ->
   get_oid cf (snd (step cf c (ORename p q))) (q ++ rel) = get_oid cf c (p ++ rel).
@@ -167,8 +168,9 @@ Proof. exact dict_delete_commutes. Qed.
 Print Assumptions C19_dict_delete_commutes.
 
 Theorem C19_dict_rename_commutes : forall cf c p q S rel,
+  (forall n, cf_fold cf (cf_fold cf n) = cf_fold cf n) ->
   Inv c -> tame cf c = true -> n_id (c_root c) <> None ->
-  map (cf_fold cf) p <> [] -> q <> [] -> cf_fold cf (last q 0%N) = last q 0%N ->
+  map (cf_fold cf) p <> [] -> q <> [] ->
   lookup (map (cf_fold cf) p) (c_root c) = Some S ->
   fst (step cf c (ORename p q)) = ROk ->
   dict_get (map (cf_fold cf) q ++ rel) (dict_of (c_root (snd (step cf c (ORename p q))))) =
@@ -231,24 +233,25 @@ Proof.
 Qed.
 Print Assumptions C19_inverse_root_ghost_refuted.
 
-(* (b) case-insensitive rename stores the new name un-normalised: id -> path -> id fails *)
+(* (c) an insertion at the root path stores a child named '': id -> path -> id fails.
+   (Before repository commit 5cc1cf3 a case-insensitive rename('/a','/A') refuted it as well.) *)
 Definition path_oid_inverse_full : Prop :=
-  forall (cf : cfg) (ops : list op) (o : N) (p : list N), let c := exec cf c0 ops in get_path c o = Some p -> get_oid cf c p = Some o.
+  forall (cf : cfg) (ops : list op) (o : N) (p : list N),
+  let c := exec cf c0 ops in get_path c o = Some p -> get_oid cf c p = Some o.
 
 Theorem C19_path_oid_inverse_refuted : ~ path_oid_inverse_full.
 Proof.
-  intros H. specialize (H cf_ci [OCreate [97] (Some 1) None; ORename [97] [65]]%N 1%N [65]%N eq_refl).
+  intros H. specialize (H cf_cs [OCreate [] (Some 1) None] 1 [] eq_refl).
   vm_compute in H. discriminate.
 Qed.
 Print Assumptions C19_path_oid_inverse_refuted.
+(* the partial statement is C19_path_oid_inverse (tame states) / C19_inverse_views_reachable *)
 
-(* (c) an insertion at the root path stores a child named '' *)
-Theorem C19_root_path_insert_refuted :
-  exists ops o p, let c := exec cf_cs c0 ops in get_path c o = Some p /\ get_oid cf_cs c p <> Some o.
-Proof.
-  exists [OCreate [] (Some 1%N) None], 1%N, []. vm_compute. split; [reflexivity|discriminate].
-Qed.
-Print Assumptions C19_root_path_insert_refuted.
+(* the repaired rename: the witness of the former defect now satisfies the law *)
+Example ex_ci_rename_repaired :
+  let c := exec cf_ci c0 [OCreate [97] (Some 1) None; ORename [97] [65]] in
+  get_path c 1 = Some [97] /\ get_oid cf_ci c [65] = Some 1.
+Proof. vm_compute. auto. Qed.
 
 (* ------------------------------------------------------------------ non-vacuity *)
 Definition ex_ops : list op :=
